@@ -171,7 +171,7 @@ def run_property(prop, tier, only, nproc, timeout, write_evidence, verbose):
                     detail = 'replay driver raised: %s' % traceback.format_exc()[-800:]
             rec['replay_detail'] = detail
             if reproduced:
-                d = os.path.join(VERIF, 'replays', prop)
+                d = os.path.join(os.environ.get('SX_REPLAY_DIR') or os.path.join(VERIF, 'replays'), prop)
                 os.makedirs(d, exist_ok=True)
                 fn = os.path.join(d, '%s_%d_%d.json' % (lid.replace('.', '_'), key[1], len(violations)))
                 json.dump(rec, open(fn, 'w'), indent=1, sort_keys=True)
